@@ -161,7 +161,14 @@ def decode(sx, case):
              "recompile": ["ok", Q.canon_ast(FUZZ.sx_query_to_ast(q2))],
              "str2": SX.sx2s(t2[1]) if t2[0] == "ok" else ["err", t2[1]], "eval1": evs(ev1), "eval2": evs(ev2)}
     unsupported = "unsupported" in SX.dump([t2, ev1, ev2])
+    # the hypotheses of the C10 theorems on the compiled query: in the domain whenever the two float conditions hold
+    # (C10_compiled_in_domain_partial); outside the float conditions the theorems do not apply (the property is still
+    # checked against the implementation through `spec`)
+    floats = bridges.pop("floats-ok", "true") == "true" and bridges.pop("floats-stable", "true") == "true"
+    dom = bridges.pop("in-domain", "true")
+    bridges["domain-if-floats"] = dom if floats else "true"
     model["bridges"] = bridges
+    model["float_domain"] = floats
     return {"model": model, "spec": {"recompiles": True, "fixed_point": True, "same_results": True}, "in_domain": True,
             "model_unsupported": unsupported}
 
@@ -169,7 +176,8 @@ def decode(sx, case):
 def for_model(case, res):
     out = dict(res)
     if res.get("compile", ["err"])[0] == "ok" and "eval2" in res:
-        out["bridges"] = {"lex-bridge": "true", "parse-bridge": "true", "norm-is-reparse": "true"}
+        out["bridges"] = {"lex-bridge": "true", "parse-bridge": "true", "norm-is-reparse": "true", "domain-if-floats": "true"}
+        out["float_domain"] = True
     return out
 
 
